@@ -19,13 +19,16 @@ class Inject(KeyboardInterrupt):
 
 
 class Failpoints:
-    def __init__(self, exclude=None):
+    def __init__(self, exclude=None, c_returns=False):
+        self.c_returns = c_returns      # also crash right after a C function called from the code returns
         self.mon = sys.monitoring
         self.tool = None
         self.root = os.path.join(os.path.realpath(env.REPO), "curtsies") + os.sep
         self.armed = False
         self.count = 0
         self.fire_at = None
+        self.fire_where = None
+        self._seen_where = 0
         self.where = None
         self.fired = False
         self.exclude = exclude or (lambda code: False)
@@ -42,12 +45,23 @@ class Failpoints:
         if self.tool is None:
             raise RuntimeError("no free sys.monitoring tool id")
         self.mon.register_callback(self.tool, self.mon.events.LINE, self._on_line)
-        self.mon.set_events(self.tool, self.mon.events.LINE)
+        if self.c_returns:
+            # CPython runs pending signal handlers when a C call returns (and at loop back-edges
+            # and function entry): "just after the last C call of a function" is a crash point that
+            # no statement start stands for
+            self.mon.register_callback(self.tool, self.mon.events.CALL, self._on_call)
+            self.mon.register_callback(self.tool, self.mon.events.C_RETURN, self._on_c_return)
+            self.mon.set_events(self.tool, self.mon.events.LINE | self.mon.events.CALL)
+        else:
+            self.mon.set_events(self.tool, self.mon.events.LINE)
 
     def uninstall(self):
         if self.tool is not None:
             self.mon.set_events(self.tool, 0)
             self.mon.register_callback(self.tool, self.mon.events.LINE, None)
+            if self.c_returns:
+                self.mon.register_callback(self.tool, self.mon.events.CALL, None)
+                self.mon.register_callback(self.tool, self.mon.events.C_RETURN, None)
             self.mon.free_tool_id(self.tool)
             self.tool = None
 
@@ -75,11 +89,36 @@ class Failpoints:
             # run, so a failpoint on it would be an impossible crash point
             return None
         self.count += 1
-        if self.fire_at == self.count:
+        if self.fire_at == self.count or self._at(code.co_qualname, line):
             self.where = (os.path.basename(code.co_filename), code.co_qualname, line)
             self.fired = True
             self.armed = False
             raise Inject("failpoint %d at %s:%s:%d" % ((self.count,) + self.where))
+        return None
+
+    def _on_call(self, code, offset, callable_, arg0):
+        if os is None:
+            return None
+        if not os.path.realpath(code.co_filename).startswith(self.root):
+            return self.mon.DISABLE
+        return None
+
+    def _on_c_return(self, code, offset, callable_, arg0):
+        if os is None or not self.armed:
+            return None
+        if not os.path.realpath(code.co_filename).startswith(self.root):
+            return None
+        if self.main_only and threading.current_thread() is not threading.main_thread():
+            return None
+        if self.exclude(code):
+            return None
+        self.count += 1
+        if self.fire_at == self.count or self._at(code.co_qualname, "after %s" % getattr(callable_, "__name__", "C call")):
+            self.where = (os.path.basename(code.co_filename), code.co_qualname,
+                          "after %s" % getattr(callable_, "__name__", "C call"))
+            self.fired = True
+            self.armed = False
+            raise Inject("failpoint %d at %s:%s:%s" % ((self.count,) + self.where))
         return None
 
     def _nop_lines(self, code):
@@ -109,7 +148,21 @@ class Failpoints:
             cache[code] = r
         return r
 
-    def arm(self, fire_at=None):
+    def _at(self, qualname, what):
+        """crash point named by place: [qualname, 'first'|'last-call'|'after <C function>', nth]"""
+        fw = self.fire_where
+        if not fw or fw[0] != qualname:
+            return False
+        if fw[1] == "first" and isinstance(what, int):
+            pass
+        elif fw[1] != what:
+            return False
+        self._seen_where += 1
+        return self._seen_where == fw[2]
+
+    def arm(self, fire_at=None, fire_where=None):
+        self.fire_where = fire_where
+        self._seen_where = 0
         self.mon.restart_events()
         self.main_only = self.__dict__.get("main_only", True)
         self.count = 0
@@ -150,12 +203,23 @@ class Yields:
         if self.tool is None:
             raise RuntimeError("no free sys.monitoring tool id")
         self.mon.register_callback(self.tool, self.mon.events.LINE, self._on_line)
-        self.mon.set_events(self.tool, self.mon.events.LINE)
+        if self.c_returns:
+            # CPython runs pending signal handlers when a C call returns (and at loop back-edges
+            # and function entry): "just after the last C call of a function" is a crash point that
+            # no statement start stands for
+            self.mon.register_callback(self.tool, self.mon.events.CALL, self._on_call)
+            self.mon.register_callback(self.tool, self.mon.events.C_RETURN, self._on_c_return)
+            self.mon.set_events(self.tool, self.mon.events.LINE | self.mon.events.CALL)
+        else:
+            self.mon.set_events(self.tool, self.mon.events.LINE)
 
     def uninstall(self):
         if self.tool is not None:
             self.mon.set_events(self.tool, 0)
             self.mon.register_callback(self.tool, self.mon.events.LINE, None)
+            if self.c_returns:
+                self.mon.register_callback(self.tool, self.mon.events.CALL, None)
+                self.mon.register_callback(self.tool, self.mon.events.C_RETURN, None)
             self.mon.free_tool_id(self.tool)
             self.tool = None
 
